@@ -70,7 +70,7 @@ MANIFEST = {
     "text": "Bounded model checking of the real m_mod_stash/m_mod_unstash (evts.c) with the real queue, stack, "
             "ref-counted blocks and call_pubsub_cb: for every n in size_t and 0..NS stashed events the handler gets "
             "exactly the min(n, stashed) oldest in order in one invocation and the count is returned; remainder intact "
-            "and redelivered once; guards decided from any state/priority/token value; stop discards the stash",
+            "and redelivered once; guards decided from any state/priority/token value; stop discards the stash; re-entrant m_mod_unstash from the handler delivers nothing twice",
     "note": "m_ctx() and the clock are stubs (listed in evidence); number of stashed events bounded by NS; "
             "interleaving with loop deliveries is covered by C13/C08",
 }
